@@ -142,6 +142,29 @@ theorem assembled_bytes (bs : Nat) (hbs : 0 < bs) (secs : List Sec) (bl : List B
       (assembled (total secs) bl ops)[i]? = some 0) :=
   assembled_spec (calcBlocks_wf hbs hbl) ops
 
+/-- **assembled_padding_zero.** The bytes no block covers are exactly the piece's padding bytes:
+every padding byte of the assembled buffer is 0 (what a padding file contains), and every data
+byte lies in exactly one block. -/
+theorem assembled_padding_zero (bs : Nat) (hbs : 0 < bs) (secs : List Sec) (bl : List Block)
+    (hbl : calcBlocks bs secs = some bl) (ops : List Op) :
+    (∀ i : Nat, (secMask secs)[i]? = some false → (assembled (total secs) bl ops)[i]? = some 0) ∧
+    (∀ i : Nat, (secMask secs)[i]? = some true →
+      ∃ b ∈ bl, (b.b ≤ i ∧ i < b.b + b.l) ∧ ∀ b' ∈ bl, (b'.b ≤ i ∧ i < b'.b + b'.l) → b' = b) := by
+  have hw := calcBlocks_wf hbs hbl
+  constructor
+  · intro i hi
+    have hlt : i < total secs := by
+      rw [← secMask_length]
+      exact (List.getElem?_eq_some_iff.mp hi).1
+    apply (assembled_spec hw ops).2.2 i hlt
+    intro b hb hc
+    have := (calcBlocks_mask_iff hbs hbl i).mpr ⟨b, hb, hc⟩
+    rw [hi] at this
+    cases this
+  · intro i hi
+    obtain ⟨b, hb, hc⟩ := (calcBlocks_mask_iff hbs hbl i).mp hi
+    exact ⟨b, hb, hc, fun b' hb' hc' => hw.covers_unique hb' hb hc' hc⟩
+
 /-- The data `firstData` returns for block `(b,l)` has length `l`. -/
 theorem firstData_len (ops : List Op) (b l : Nat) (d : Bytes) (h : firstData ops b l = some d) :
     d.length = l := firstData_length h
@@ -413,7 +436,7 @@ def exStale : WsIn :=
 
 example : writeDone exGood =
   [.clearWriting, .resumePieceMessages, .resumeWebseedResults, .releaseBuffer, .markDone, .setBit,
-   .decWebseedActive, .restartWebseed, .cancelOthers 2, .updateInterest 3, .sendHave 2, .complete,
+   .webseedStopAt, .decWebseedActive, .restartWebseed, .cancelOthers 2, .updateInterest 3, .sendHave 2, .complete,
    .persistBitfield] := by decide
 example : writeDone exBad =
   [.clearWriting, .resumePieceMessages, .resumeWebseedResults, .releaseBuffer, .addWasted, .closePeer, .banIP,
